@@ -243,7 +243,8 @@ def main():
         if def_o != def_t or (def_o and so != stt):
             ck.violation("status_%s.txt" % k, replay, "LP %s (%dx%d): status %s, after the proved-equivalent reformulation [%s]: %s" % (
                 lp["name"], len(lp["rows"]), len(lp["cols"]), (ro, STATUS.get(so, so)), chain_txt, (rt, STATUS.get(stt, stt))),
-                match=dict(kind="status", a=STATUS.get(so, str(so)), b=STATUS.get(stt, str(stt))))
+                match=dict(kind="status", a=STATUS.get(so, str(so)), b=STATUS.get(stt, str(stt)), numbers=lp.get("numbers", "small"),
+                           one_side="UNSOLVED" if (ro == 0 and rt == 0 and sorted([so == 6, stt == 6]) == [False, True]) else "-"))
         elif def_o and so == 1:
             exp = vo
             for neg, b, _ in vmaps[k]:
